@@ -13,7 +13,6 @@ import (
 
 func init() { factFns["C11"] = factsC11 }
 
-
 // chanMakes lists "name:cap" for every `name := make(chan T[, cap])` in fn, in source order.
 func chanMakes(f *file, fd *ast.FuncDecl) []string {
 	var out []string
